@@ -1,3 +1,63 @@
-From Ebml Require Import Base Tools Spec Reader.
-Example C01_ex : ebml_size 127 1 = SUnknown /\ ebml_size 127 2 = SKnown 127.
-Proof. vm_compute. split; reflexivity. Qed.
+(* C01 — write→read round trip.  Statements only.
+   Reader half (this file, first part): the strict reader yields exactly the items of every conforming encoded document.
+   [rtree] (Model/Encode.v) is a document together with all the choices an encoder may make: the width of every size field,
+   known or unknown size per master, the payload bytes of every element (any bytes the element's type decodes to the value).
+   [conf c ids t] says the tree conforms to the specification: ids are well-formed vints, every element is declared with
+   exactly the chain of masters it sits in as its path, payloads decode, sizes fit their fields and the configured limit.
+   PARTIAL: declared paths without global placeholders; tags written as Full are covered through C09_full_decomposes
+   (a Full is written as Start, children, End); raw tags are covered by the correspondence check only. *)
+From Ebml Require Import Base Tools Spec Writer Reader Pure Encode Proofs.Tactics Proofs.ReaderIO Proofs.Refine Proofs.PureProofs Proofs.RoundTrip.
+
+(* every conforming document — any nesting depth, any payloads, any size widths, any subset of masters of unknown size — is
+   read back as exactly its items (masters as Start/End pairs, offsets of the first byte of each element), then None *)
+Theorem C01_reader_roundtrip_partial : forall c f, strict c -> c_buffered c = [] -> c_emit_eof c = true -> Forall (conf c []) f ->
+  p_run c (enc_forest f) [RAll] = items_forest 0 f ++ [ONone].
+Proof. exact reader_roundtrip. Qed.
+
+(* ... by the buffered reader too, for every buffer capacity and every way the source chunks its reads *)
+Theorem C01_reader_roundtrip_buffered_partial : forall c f cap0 script, calm script -> strict c -> c_buffered c = [] ->
+  c_emit_eof c = true -> Forall (conf c []) f -> run_reader c cap0 script (enc_forest f) [RAll] = items_forest 0 f ++ [ONone].
+Proof. exact reader_roundtrip_buffered. Qed.
+
+(* the tags alone *)
+Theorem C01_reader_roundtrip_tags_partial : forall c f, strict c -> c_buffered c = [] -> c_emit_eof c = true -> Forall (conf c []) f ->
+  map out_tag (p_run c (enc_forest f) [RAll]) = map Some (tags_forest f) ++ [None].
+Proof. exact reader_roundtrip_tags. Qed.
+
+(* the hypotheses are satisfiable: a document with an unknown-size master nested in an unknown-size master, closed by a
+   sibling of the inner one; a second root closes the first *)
+Definition C01_sp : spec :=
+  [ {| e_id := 129; e_ty := DMaster; e_path := [] |}; {| e_id := 16643; e_ty := DMaster; e_path := [PId 129] |};
+    {| e_id := 16642; e_ty := DBinary; e_path := [PId 129; PId 16643] |}; {| e_id := 16641; e_ty := DUInt; e_path := [PId 129] |} ].
+Definition C01_cfg : cfg :=
+  {| c_sp := C01_sp; c_allow_id := false; c_allow_hier := false; c_allow_over := false; c_max := Some 4000000000; c_buffered := [];
+     c_emit_eof := true |}.
+Definition C01_doc : list rtree :=
+  [ RNode 129 None [ RNode 16643 None [ RLeaf 16642 (VB [7]) [7] 1%nat ]; RLeaf 16641 (VU 5) [0; 5] 2%nat ]; RNode 129 (Some 1%nat) [] ].
+
+Example C01_ex_conf : strict C01_cfg /\ Forall (conf C01_cfg []) C01_doc.
+Proof.
+  assert (I1 : idok 129) by (exists 1%nat, 1; repeat split; cbn; lia).
+  assert (I2 : idok 16643) by (exists 2%nat, 259; repeat split; cbn; lia).
+  assert (I3 : idok 16642) by (exists 2%nat, 258; repeat split; cbn; lia).
+  assert (I4 : idok 16641) by (exists 2%nat, 257; repeat split; cbn; lia).
+  split; [repeat split|].
+  assert (L1 : conf C01_cfg [129; 16643] (RLeaf 16642 (VB [7]) [7] 1%nat)).
+  { cbn [conf]. repeat split; try assumption; try lia; try (cbn; lia); try (repeat constructor; lia).
+    exists DBinary. repeat split. discriminate. }
+  assert (L2 : conf C01_cfg [129] (RLeaf 16641 (VU 5) [0; 5] 2%nat)).
+  { cbn [conf]. repeat split; try assumption; try lia; try (cbn; lia); try (repeat constructor; lia).
+    exists DUInt. repeat split. discriminate. }
+  assert (N1 : conf C01_cfg [129] (RNode 16643 None [RLeaf 16642 (VB [7]) [7] 1%nat])).
+  { apply conf_node. split; [exact I2|]. split; [intros sl Hsl; discriminate Hsl|]. repeat split. constructor; [exact L1|constructor]. }
+  constructor; [|constructor; [|constructor]].
+  - apply conf_node. split; [exact I1|]. split; [intros sl Hsl; discriminate Hsl|]. repeat split.
+    constructor; [exact N1|constructor; [exact L2|constructor]].
+  - apply conf_node. split; [exact I1|]. split; [intros sl Hsl; injection Hsl as <-; split; [lia|vm_compute; reflexivity]|]. repeat split; [vm_compute; discriminate|constructor].
+Qed.
+
+Example C01_ex_run :
+  p_run C01_cfg (enc_forest C01_doc) [RAll] =
+    [OItem (TStart 129) 0; OItem (TStart 16643) 9; OItem (TElem 16642 (VB [7])) 19; OItem (TEnd 16643) 9;
+     OItem (TElem 16641 (VU 5)) 23; OItem (TEnd 129) 0; OItem (TStart 129) 29; OItem (TEnd 129) 29; ONone].
+Proof. vm_compute. reflexivity. Qed.
